@@ -14,6 +14,17 @@ import (
 
 func has(s *exec.State, h int) bool { _, ok := s.Pk[h]; return ok }
 
+// stringOf formats the packet unless its encoding is very large: the
+// library's formatters build their result by repeated string concatenation
+// and take seconds on lists of tens of thousands of elements (observed: 14 s
+// for an XR block of 32,762 chunks). No property bounds formatting time, so
+// such values are not formatted (DESIGN.md 3.4).
+func stringOf(s *exec.State, h, bufh int) {
+	if len(s.Buf[bufh]) <= 20000 {
+		s.String(h)
+	}
+}
+
 // scriptRT: a value through every API (C02 C03 C05 C10 C17 C18).
 func scriptRT(s *exec.State, v abs.V) {
 	kind := v["k"].(string)
@@ -23,14 +34,14 @@ func scriptRT(s *exec.State, v abs.V) {
 	s.Size(1)
 	s.Header(1)
 	s.Dest(1)
-	s.String(1)
+	stringOf(s, 1, 1)
 	if kind != "LIST" {
 		s.Unmarshal(kind, 1, 2)
 		if has(s, 2) {
 			s.Dest(2)
 			s.Marshal(2)
 			s.Size(2)
-			s.String(2)
+			stringOf(s, 2, 1)
 			if s.Buf[2] != nil {
 				s.Unmarshal(kind, 2, 5)
 			}
@@ -51,7 +62,7 @@ func scriptDec(s *exec.State, b []byte) {
 	dh := 0
 	if has(s, 4) {
 		dh = 4
-		s.String(4)
+		stringOf(s, 4, 1)
 		s.Dest(4)
 		s.Marshal(4)
 		if s.Buf[4] != nil {
@@ -68,7 +79,7 @@ func scriptDec(s *exec.State, b []byte) {
 			s.Unmarshal(entry, 1, 2)
 		}
 		if has(s, 2) {
-			s.String(2)
+			stringOf(s, 2, 1)
 			s.Marshal(2)
 			if s.Buf[2] != nil && entry != "CP" {
 				s.Unmarshal(entry, 2, 3)
@@ -86,7 +97,7 @@ func scriptDgram(s *exec.State, b []byte) {
 	s.SetBuf(1, b)
 	s.Datagram(1, 4)
 	if has(s, 4) {
-		s.String(4)
+		stringOf(s, 4, 1)
 		s.Marshal(4)
 		if s.Buf[4] != nil {
 			s.Datagram(4, 5)
